@@ -111,7 +111,7 @@ def run(pid, tier, bit, gens, n_quick, n_thorough, assumptions, also_model=True,
             kw2 = dict(kw)
             n_ops = kw2.pop("n_ops", 6 if tier == "quick" else 10)
             cases.append(ig.gen_case(rng, n_ops, **kw2))
-    bad, logs = ic.evaluate(pid, cases)
+    bad, logs = ic.evaluate(pid, cases, trace_every=3 if tier == "quick" else 5)
     want = bit | (1 if also_model else 0)
     reported = set()
     relevant = [(i, c, o) for i, c, o in bad if c & want]
@@ -150,6 +150,7 @@ def run(pid, tier, bit, gens, n_quick, n_thorough, assumptions, also_model=True,
         "samples": [{"ops": [list(map(str, op)) for op, _ in c["ops"]][:8]} for c in cases[:2]],
         "exhaustive": False,
     }
+    extra["anchored_line_coverage"] = ic.line_coverage()
     if post:
         post(chk, cases, bad, extra)
     return chk.finish(trusted_base=TRUSTED, assumptions=assumptions, extra=extra)
